@@ -19,9 +19,9 @@ with=$(go test -count=1 -run "^$tname\$" $pkg 2>&1 | tail -1)
 echo "with change:    $with"
 base=$(/verif/tools/baseline.sh $wt | head -1)
 echo "existing tests: $base"
-git stash -q
+git apply -R $out/patch.diff
 without=$(go test -count=1 -run "^$tname\$" $pkg 2>&1 | tail -1)
-git stash pop -q
+git apply $out/patch.diff
 echo "without change: $without"
 rm -f pkcs12/test.p12
 cd /repo && git apply $out/patch.diff || { echo "PATCH DOES NOT APPLY TO /repo"; exit 4; }
